@@ -131,7 +131,7 @@ func init() {
 		Cases: func(tier string) int64 {
 			switch tier {
 			case "thorough":
-				return 2000000
+				return 1200000
 			case "race":
 				return 0
 			}
